@@ -282,6 +282,10 @@ func doWorker(e Engine, x *Ctx, tier string, seed uint64, w, n int, out string, 
 		t := NewTape(c.Seed)
 		res, hp := runCase(e, t, c, x)
 		current.Store(-1)
+		if res != nil {
+			// coverage keys are a set: their order must not depend on map iteration in an engine
+			sort.Slice(res.Keys, func(i, j int) bool { return res.Keys[i] < res.Keys[j] })
+		}
 		line := workerLine{Index: c.Index, Result: res, Panic: hp}
 		if res != nil && res.Violation != nil {
 			line.Tape = t.Out
@@ -524,6 +528,9 @@ func coordinate(e Engine, x *Ctx, o coordOpts) int {
 			}
 			b, _ := json.Marshal(&rc)
 			fmt.Printf("DIGEST %d %016x\n", i, HashString(string(b)))
+			if os.Getenv("VERIF_DUMP") != "" {
+				fmt.Printf("DUMP %d %s\n", i, string(b))
+			}
 		}
 	}
 
